@@ -187,6 +187,76 @@ func c34anyAllowed(c *Ctx, m *Module) {
 		c.Check(len(missing) == 0, rule, fmt.Sprintf("%s#grant%d", f.Key, n), r.Pos(), m, "", "grant without: "+strings.Join(missing, ", "))
 	}
 	c.Floor(rule, n, 1)
+	// domination: a DENY literal dominates only the identical ALLOW literal; a DENY prefix dominates
+	// any ALLOW name it is a prefix of.  The literal comparison must therefore be confined to literal ALLOWs.
+	{
+		var dom *ast.FuncLit
+		var domName string
+		ast.Inspect(f.Decl.Body, func(x ast.Node) bool {
+			if as, ok := x.(*ast.AssignStmt); ok && len(as.Rhs) == 1 {
+				if lit, ok := as.Rhs[0].(*ast.FuncLit); ok && lit.Type.Results != nil && len(lit.Type.Results.List) == 1 {
+					dom, domName = lit, exprStr(as.Lhs[0])
+				}
+			}
+			return true
+		})
+		if dom == nil {
+			c.Undecided("acl-any-domination", f.Key, f.Pos(), m, "domination helper not found")
+		} else {
+			dg := f.LitGraph(dom)
+			nLit, nPre := 0, 0
+			ast.Inspect(dom.Body, func(x ast.Node) bool {
+				rs, ok := x.(*ast.RangeStmt)
+				if !ok {
+					return true
+				}
+				l, okl := dg.LocOf(rs.X)
+				if !okl {
+					return true
+				}
+				facts := dg.FactsAt(l)
+				underLiteral := factMatches(facts, func(ft Fact) bool {
+					id, ok := ft.Cond.(*ast.Ident)
+					if !ok || !ft.Val {
+						return false
+					}
+					_, isBool := constBool(info, id)
+					return !isBool && info.Types[id].Type != nil && info.Types[id].Type.String() == "bool"
+				})
+				body := nosp(printNode(m.Fset, rs.Body))
+				switch {
+				case strings.Contains(exprStr(rs.X), "Literal"):
+					nLit++
+					c.Check(underLiteral && strings.Contains(body, "=="), "acl-any-domination", f.Key+"#deny-literal-only-vs-literal-allow", rs.Pos(), m, "exact-name DENY literals only dominate literal ALLOWs", "DENY literal names are compared against every ALLOW pattern: a DENY on literal X wrongly cancels an ALLOW on prefix X")
+				case strings.Contains(exprStr(rs.X), "Prefix"):
+					nPre++
+					c.Check(!underLiteral && strings.Contains(body, "strings.HasPrefix(name,"), "acl-any-domination", f.Key+"#deny-prefix-dominates-all", rs.Pos(), m, "DENY prefixes dominate literal and prefixed ALLOWs they are a prefix of", "DENY prefixes are not applied to every ALLOW pattern with strings.HasPrefix(name, prefix)")
+				}
+				return true
+			})
+			c.Check(nLit == 1 && nPre == 1, "acl-any-domination", f.Key+"#lists", dom.Pos(), m, "", "domination helper does not consult both the literal and the prefix DENY lists")
+			// call sites: literal arm passes true, prefixed arm false
+			for _, cn := range findNodes(f.Decl.Body, false, func(x ast.Node) bool {
+				call, ok := x.(*ast.CallExpr)
+				return ok && exprStr(call.Fun) == domName
+			}) {
+				call := cn.(*ast.CallExpr)
+				l, _ := g.LocOf(call)
+				pat := ""
+				for _, ft := range g.FactsAt(l) {
+					if ft.Tag != nil && ft.Val && nosp(exprStr(ft.Tag)) == "acl.pattern" {
+						pat = strings.TrimPrefix(exprStr(ft.Cond), "kmsg.ACLResourcePatternType")
+					}
+				}
+				okArg := false
+				if len(call.Args) == 2 {
+					v, isC := constBool(info, call.Args[1])
+					okArg = isC && v == (pat == "Literal") && (pat == "Literal" || pat == "Prefixed") && nosp(exprStr(call.Args[0])) == "acl.resourceName"
+				}
+				c.Check(okArg, "acl-any-domination", f.Key+": "+exprStr(call), call.Pos(), m, "", "domination test for a "+pat+" ALLOW is called with the wrong pattern kind / name")
+			}
+		}
+	}
 	// the deny lists are filled only from fully matching DENY entries; the domination helper reads both lists
 	for _, an := range findNodes(f.Decl.Body, true, func(x ast.Node) bool {
 		as, ok := x.(*ast.AssignStmt)
